@@ -2,3 +2,5 @@ import PytaskModel.Generated
 import PytaskModel.Graph
 import PytaskModel.Sorter
 import PytaskModel.Engine
+import PytaskModel.HashValue
+import PytaskModel.PathNorm
